@@ -376,21 +376,18 @@ class FeedChecker(ProgMixin):
             self.progbar = self.get_progress_tracker(total, path)
             self.index = i
             if os.path.exists(path):
-                for piece in self.extract(path, partial):
-                    if (len(piece) == self.piece_length) or (i + 1 == len(
-                            self.paths)):
-                        yield piece
-                    else:
-                        partial = piece
-
+                pieces = self.extract(path, partial)
             else:
-                length = self.fileinfo[i]["length"]
-                for pad in self._gen_padding(partial, length):
-                    if len(pad) == self.piece_length:
-                        yield pad
-                    else:
-                        partial = pad
+                pieces = self._gen_padding(partial, total)
+            for piece in pieces:
+                if len(piece) == self.piece_length:
+                    yield piece
+                    partial = bytearray()
+                else:
+                    partial = piece
             self.progbar.close_out()
+        if partial:
+            yield partial
 
     def extract(self, path: str, partial: bytearray) -> bytearray:
         """
